@@ -13,7 +13,11 @@ use std::cmp::Reverse;
 use std::collections::{BTreeMap, BinaryHeap, HashSet};
 use std::net::SocketAddr;
 use std::sync::Arc;
+#[cfg(not(feature = "verif-hooks"))]
 use std::time::{Duration, Instant};
+// verification harnesses run nodes under tokio's paused clock: measure elapsed time on that clock
+#[cfg(feature = "verif-hooks")]
+use {std::time::Duration, tokio::time::Instant};
 
 use log::{debug, trace, warn};
 use wincode::{SchemaRead, SchemaWrite};
